@@ -310,7 +310,29 @@ func GenScript(r *hx.Rand, maxRoutes int) []RegT {
 	if r.Chance(1, 10) {
 		script = MountSome(r, script)
 	}
+	if r.Chance(1, 12) {
+		script = StaticSome(r, script)
+	}
 	return script
+}
+
+// StaticSome adds one r.StaticFS(prefix, fs) call to the script: two registrations (GET and HEAD) of the pattern the
+// prefix stands for; the prefix is spelled in one of the four ways the documentation allows.
+func StaticSome(r *hx.Rand, script []RegT) []RegT {
+	segs := []string{hx.Pick(r, []string{"assets", "a", "users", "list", "files"})}
+	if r.Chance(1, 2) {
+		segs = append(segs, hx.Pick(r, statics))
+	}
+	base := strings.Join(segs, "/")
+	sp := hx.Pick(r, []string{"/" + base, "/" + base + "/", base, "/" + base + "/*"})
+	pair := []RegT{{Method: "GET", Path: StaticPattern(sp), Static: sp}, {Method: "HEAD", Path: StaticPattern(sp), Static: sp}}
+	at := 0 // before or after everything else (never inside the block of a Mount call)
+	if r.Chance(1, 2) {
+		at = len(script)
+	}
+	out := append([]RegT{}, script[:at]...)
+	out = append(out, pair...)
+	return append(out, script[at:]...)
 }
 
 // renamedSibling appends, for one parameter route of the script, a sibling that shares its prefix up to a parameter,
@@ -372,7 +394,7 @@ func genScriptPlain(r *hx.Rand, maxRoutes int) []RegT {
 	return script
 }
 
-var mountPrefixes = []string{"/m", "/m/", "m", "/api/v1", "/a", "/users", "/", "/:x", "/a/:id"}
+var mountPrefixes = []string{"/m", "/m/", "m", "/api/v1", "/a", "/users", "/", "/:x", "/a/:id", "/m//", "m/", "", "/list/"}
 
 // MountSome turns a contiguous block of the script into routes of a sub-router that is mounted at a prefix (in
 // place, so that the main router's registration order is the script order), and in one case out of three mounts
@@ -533,7 +555,7 @@ func GenReq(r *hx.Rand, script []RegT) ReqT {
 		}
 	}
 	q.Path = "/" + strings.Join(segs, "/")
-	if r.Chance(1, 80) {
+	if r.Chance(1, 80) && !HasStatic(script) { // (http.StripPrefix in front of a file server answers such paths itself)
 		q.Path = strings.TrimPrefix(q.Path, "/") // no leading slash (outside the canonical domain)
 	}
 	if r.Chance(1, 12) {
@@ -681,7 +703,7 @@ func GenReqWide(r *hx.Rand, script []RegT) ReqT {
 		}
 		q.Path = "/" + hx.Pick(r, []string{"é", "ü1", "\xff", "日本"}) + rest
 	}
-	if r.Chance(1, 25) && len(q.Path) > 1 && q.Path[0] == '/' {
+	if r.Chance(1, 25) && len(q.Path) > 1 && q.Path[0] == '/' && !HasStatic(script) {
 		// no leading slash (a router behind http.StripPrefix sees such paths): outside the canonical domain, but
 		// the two engines still have to agree
 		q.Path = q.Path[1:]
